@@ -762,10 +762,36 @@ func init() {
 			}
 			return true
 		})
-	reg("(*"+tapi+".Cursor).Encode", "Cursor.Encode: signs the cursor (HMAC with a fixed key); may fail", func(x *Exec, st *State, fr *Frame, c *callCtx) bool {
-		return x.finish(st, fr, c, x.symbolicResult(st, c))
+	reg("(*"+tapi+".Cursor).Encode", "Cursor.Encode: signs the cursor (HMAC with a fixed key); may fail; a token it returns is never the empty string", func(x *Exec, st *State, fr *Frame, c *callCtx) bool {
+		v := x.symbolicResult(st, c)
+		if t, ok := v.(VTuple); ok && len(t.E) == 2 {
+			if tok, ok := x.force(st, t.E[0]).(VScalar); ok {
+				if ev, ok := x.force(st, t.E[1]).(VIface); ok {
+					st.assume(Implies(ev.Nil, Not(Eq(tok.T, x.sym.StrLit("")))))
+				}
+			}
+		}
+		return x.finish(st, fr, c, v)
 	})
 	reg("(*"+tapi+".Cursor).String", "opaque", noop)
+	// gin.New(): a router with gin's documented defaults for the switches that decide how a path becomes a
+	// route parameter (UseRawPath false, UnescapePathValues true, RemoveExtraSlash false); everything else opaque
+	reg("github.com/gin-gonic/gin.New", "gin.New(): a non-nil engine with UseRawPath=false, UnescapePathValues=true, RemoveExtraSlash=false (gin's defaults); the rest of the engine is not interpreted", func(x *Exec, st *State, fr *Frame, c *callCtx) bool {
+		v := x.symbolicResult(st, c)
+		p, ok := v.(VPtr)
+		if !ok || p.Loc == nil {
+			return x.finish(st, fr, c, v)
+		}
+		st.assume(Not(p.Nil))
+		if pt, ok := c.ret.Type().Underlying().(*types.Pointer); ok {
+			for name, val := range map[string]Term{"UseRawPath": TFalse, "UnescapePathValues": TTrue, "RemoveExtraSlash": TFalse} {
+				if i, _ := structField(pt.Elem(), name); i >= 0 {
+					x.store(st, p.Loc.Sub(i), VScalar{val})
+				}
+			}
+		}
+		return x.finish(st, fr, c, p)
+	})
 	// golang-jwt: err == nil exactly when the token is well formed and its signature verifies under the key
 	// the key function returns (the uninterpreted predicate jwt.verifies of the token text; the spec builtin
 	// jwtverifies(s) is the same term). The claims object is filled from the token's payload in either case
